@@ -397,6 +397,7 @@ func ruleBookPair(r *core.Run, appendFn, releaseFn string, minSites int) {
 					// first booking: the shard argument is not completed
 					args := c.Common().Args
 					t := strings.TrimPrefix(strings.TrimPrefix(fr.Raw(r, args[len(args)-1]), "~"), "&")
+					t = guard.DropNilPhi(t) // a shard handed back by a helper as (shard | nil, err): past the error test it is the shard
 					ok2, w := mustPassDeep(r, f, effSite{Ins: c, Chain: fr.Chain}, []guard.Atom{guard.Ne("*"+guard.Exact(t)+".Status", constVal(r, "order/types", "ShardCompleted"))})
 					if ok2 {
 						r.Discharge("T-book-pair", key, pos, "first booking: every path to it establishes that the shard's status is not completed")
